@@ -248,9 +248,53 @@ def body_store_etag_args(c0, c1, target, body):
     return (ok, _store.opname(op) + ":" + f["want"])
 
 
+def body_store_etag_warm(a0, b0, other, body, cond, op):
+    """The store object scanned an earlier state (S0), the member has since changed (S1): a conditional write /
+    delete is judged against the CURRENT content - the etag of the S0 version is stale and must be refused."""
+    from xv.env import world as Wm
+    kind = ctx.PART
+    name = "c.vcf"  # vCards carry no UID: nothing forces the store to rescan before the condition is evaluated
+    S0 = {name: a0} if len(a0) else {}
+    S1 = {name: b0} if len(b0) else {}
+    if len(other):
+        S0["o.ics"] = other
+        S1["o.ics"] = other
+    if not (SP.invariant(S0) and SP.invariant(S1)):
+        return (True, "pre-invalid")
+    Wm.reset()
+    mstore.install_state(kind, _store.PATH, S0)
+    store = mstore.open_store(kind, _store.PATH)
+    store._scan_uids()
+    Wm.CUR.rmtree(_store.PATH)
+    mstore.install_state(kind, _store.PATH, S1)
+    if cond == 0:
+        etag, meaning = (mstore.expected_etag(kind, S1[name]), ("is", S1[name])) if name in S1 else ("zz", ("never",))
+    else:
+        etag, meaning = (mstore.expected_etag(kind, S0[name]), ("is", S0[name])) if name in S0 else ("zz", ("never",))
+    try:
+        if op == 0:
+            store.import_one(name, None, [body], message="m", replace_etag=etag)
+        else:
+            store.delete_one(name, message="m", etag=etag)
+        got = "ok"
+    except Exception as e:
+        got = _store.classify(e)
+    want, S2 = SP.put(S1, name, body, meaning) if op == 0 else SP.delete(S1, name, meaning)
+    ok = got == want and mstore.agrees(kind, mstore.observe(mstore.open_store(kind, _store.PATH)), S2)
+    return (ok, ("current" if cond == 0 else "stale") + ":" + want)
+
+
+def h_store_etag_warm(a0: bytes, b0: bytes, other: bytes, body: bytes, cond: int, op: int) -> bool:
+    """
+    pre: max(len(a0), len(b0), len(other), len(body)) <= 2 and 0 <= cond <= 1 and 0 <= op <= 1
+    post: _
+    """
+    return run(body_store_etag_warm, a0, b0, other, body, cond, op)
+
+
 def h_store_etag_args(c0: bytes, c1: bytes, target: int, body: bytes) -> bool:
     """
-    pre: len(c0) <= 2 and len(c1) <= 2 and len(body) <= 2 and 0 <= target < 5
+    pre: len(c0) <= 2 and len(c1) <= 2 and len(body) <= 2 and 0 <= target < 6
     post: _
     """
     return run(body_store_etag_args, c0, c1, target, body)
@@ -364,6 +408,13 @@ HARNESSES = [
                      "order (two If-None-Match:* creations never both succeed)",
             encodes=["xandikos.webdav.PutMethod.handle", "xandikos.webdav.DeleteMethod.handle",
                      "xandikos.web.ObjectResource.set_body", "xandikos.web.StoreBasedCollection.create_member"]),
+    Harness("store_etag_warm", h_store_etag_warm, body_store_etag_warm,
+            classes=[("stale:etag", "vdir"), ("current:ok", "bare"), ("stale:ok", "tree")],
+            parts={"quick": list(mstore.KINDS)}, budget={"quick": 75, "thorough": 400},
+            describe="conditional import_one / delete_one on a long-lived store object whose caches were filled on an "
+                     "EARLIER state of the member: current etag accepted, stale etag refused; part = back end",
+            encodes=["xandikos.store.git.GitStore._check_duplicate", "xandikos.store.vdir.VdirStore._check_duplicate",
+                     "xandikos.store.vdir.VdirStore._scan_uids", "xandikos.store.git.GitStore._scan_uids"]),
     Harness("store_etag_args", h_store_etag_args, body_store_etag_args,
             classes=[("put:etag", ("bare", 0, 3)), ("put:ok", ("tree", 0, 1)), ("delete:etag", ("vdir", 1, 3)),
                      ("delete:ok", ("bare", 1, 1))],
